@@ -169,4 +169,12 @@ def r19_6(ctx):
     return o
 
 
-RULES = [r19_1, r19_2, r19_3, r19_4, r19_5, r19_6]
+def r19_7(ctx):
+    from rules import C06
+    o = C06.r06_4(ctx)
+    o.rule = "R19.7"
+    o.text = ("copies, complements and operator results of directly constructed composites are regrouped into the right components: nested four levels deep (a hole in an island in a hole) the curve of largest |area| seeds each component (same analysis as R06.4)")
+    return o
+
+
+RULES = [r19_1, r19_2, r19_3, r19_4, r19_5, r19_6, r19_7]
